@@ -126,6 +126,54 @@ W_F6 == [][C05keep(g, O, g')]_vars
 \* (the protocol-level observer and the implementation never drift apart)
 GhostAgrees == \A c \in Conns : g.gc[c] = hid.conn[c]
 
+(***************************************************************************)
+(* Structural invariants of the stored state (not one of the listed        *)
+(* properties: what every reader of the tables may rely on, at every       *)
+(* durable state including the ones a crash leaves).  The schema only      *)
+(* enforces W2, W3 and W6 (foreign keys, primary key); the rest is kept by *)
+(* the code.  Checked by TLC on every instance; on recorded executions the *)
+(* conformance comparison implies them (the projection of a real file      *)
+(* reports duplicate and orphan rows in `anom`, which is never non-empty   *)
+(* in the specification).                                                  *)
+(***************************************************************************)
+WF(d, u, atRest) ==
+  /\ d.anom = {}
+  \* W1 at most one nameplate row per (app, name); at most one row per side of it
+  /\ \A r1, r2 \in d.np : (r1.app = r2.app /\ r1.name = r2.name) => r1 = r2
+  /\ \A r1, r2 \in d.nps : (r1.app = r2.app /\ r1.name = r2.name /\ r1.side = r2.side) => r1 = r2
+  \* W2 side rows belong to a nameplate, nameplates lead to a mailbox of the same app
+  /\ \A r \in d.nps : HasNp(d, r.app, r.name)
+  /\ \A r \in d.np : MbRows(d, r.app, r.mbox) # {}
+  \* W3 mailbox side rows belong to a mailbox; one row per (mailbox, side)
+  /\ \A r \in d.mbs : MbAny(d, r.mbox) # {}
+  /\ \A r1, r2 \in d.mbs : (r1.mbox = r2.mbox /\ r1.side = r2.side) => r1 = r2
+  \* W4 a nameplate exists only while somebody holds it (between the two commits of the last
+  \*    release it exists with no claim left: a crash point, not a state at rest)
+  /\ atRest => \A r \in d.np : \E s \in NpSides(d, r.app, r.name) : s.claimed
+  \* W5 stored messages belong to a stored mailbox of their app
+  /\ \A k \in DOMAIN d.msgs : MbRows(d, d.msgs[k].app, d.msgs[k].mbox) # {}
+  \* W6 mailbox ids are unique over all apps (the PRIMARY KEY; cause of F2)
+  /\ \A r1, r2 \in d.mb : r1.id = r2.id => r1 = r2
+  \* W7 a mailbox without a side row was made for a nameplate (claim died before its open)
+  /\ \A r \in d.mb : MbSides(d, r.id) = {} => r.forNp
+  \* W8 no stamp lies in the future; activity is never older than the sides' arrival
+  /\ \A r \in d.mb : r.updated <= now /\ \A s \in MbSides(d, r.id) : s.added <= r.updated
+  /\ \A r \in d.nps : r.added <= now
+  \* W9 usage: nothing without a usage database, at most one status row
+  /\ Len(u.cur) <= 1
+  /\ ~UsageOn => u = EmptyUdb
+StoreInv == WF(db, udb, ~g.crashed)
+\* ... and so is every durable state a step passes through (every crash point)
+StoreInvCrash == \A k \in DOMAIN tr : WF(tr[k].db, tr[k].udb, FALSE)
+
+\* per-connection flags of the implementation are mutually consistent
+ConnInv ==
+  \A c \in Conns : LET x == hid.conn[c] IN
+    /\ ~x.up => x = Conn0
+    /\ (x.didAllocate \/ x.didClaim \/ x.didRelease \/ x.held \/ x.listening \/ x.didClose) => x.bound
+    /\ x.listening => x.held
+    /\ ~hid.up => ~x.up
+
 \* observation variables are not part of a state's identity
 View == <<db, udb, now, hid, g>>
 
